@@ -240,6 +240,17 @@ theorem no_order_stranded_whole_run (cfg : Config) (cl : List Client) (ss : List
     rcases hf with h | h | h | h <;> (rw [e] at h; cases h)
   exact ⟨p, hp1, hpo, Settle.package_settles w p f.inv (fun x hx => (Ids.hasOrder_iff _ x).mpr (f.inv.queue p hp1 x hx)) oid hpo⟩
 
+open Flumine.World Flumine.OL Flumine.Inv Flumine.Fl Flumine.Strand in
+/-- the re-placement half of a simulated replace (`market.place_order(replacement, execute=False)` then
+    `replacement.executable()`, or `execution_complete()` when the simulated exchange refuses it): the only order it
+    creates is the replacement order, and that order ends EXECUTABLE (placed) or EXECUTION_COMPLETE (refused) - it is
+    never left PENDING although it passes through that status -/
+theorem replacement_order_is_settled (p : Package) (w : World) (o : Order) (a : Nat) (book : Book) (np : Option Rat) (sc : Rat) (failed : Nat)
+    (ha : HasOrder w a) (hI : Inv w) (x : Nat) (hnew : ¬ HasOrder w x) (hx : HasOrder (replacePlace p w o a book np sc failed).1 x) :
+    ((replacePlace p w o a book np sc failed).1.order! x).status = some .executable ∨
+    ((replacePlace p w o a book np sc failed).1.order! x).status = some .executionComplete :=
+  replacePlace_new p w o a book np sc failed ha hI x hnew hx
+
 /-- non-vacuity: in `nvRun` (below: a replace package [0, 1] waits, order 1 is REPLACING) no request was foreign -/
 example : nvRun.foreign = 0 := by decide +kernel
 
